@@ -233,11 +233,13 @@ def spec_hook_run(case, c):
                     if any(pi_norm(x['pi']) for x in rest):
                         if any(x['deco'] is not None and opt_of(x, 'type_safe', False) for x in rest):
                             checked[0] = True
+                            out.setdefault('sets_at_check', list(out['sets']))
                         e = run(rest)
                         if e is not None:
                             return e
                     elif any(x['deco'] is not None and opt_of(x, 'type_safe', False) for x in rest):
                         checked[0] = True                             # the base's __post_init__ is the checking one
+                        out.setdefault('sets_at_check', list(out['sets']))
                     else:
                         return 12                                     # 'super' object has no attribute '__post_init__'
             if pi['raise'] is not None:
@@ -251,15 +253,33 @@ def spec_hook_run(case, c):
 
 
 def ts_levels(case, c):
-    """number of new_post_init wrappers stacked on the __post_init__ attribute of class c"""
+    """number of new_post_init wrappers that can run for an instance of class c (stacked, or reached through super())"""
     n = 0
     for k in chain_of(case, c):
         ts = k['deco'] is not None and opt_of(k, 'type_safe', False)
         if ts:
             n += 1
-        if k['pi'] is not None:
-            break
+        h = pi_norm(k['pi'])
+        if h is not None and not any(st[0] == 'super' for st in h['body']):
+            break                          # a hook that calls super() reaches the wrappers of the classes below
     return n
+
+
+def wrapper_below_other_frames(case, c):
+    """some new_post_init that runs for an instance of class c has another frame (an outer wrapper, or a user hook that reached
+    it through super()) between itself and the generated __init__: get_context(depth=3) then does not land in the caller's frame"""
+    frames = 0
+    for k in chain_of(case, c):
+        if k['deco'] is not None and opt_of(k, 'type_safe', False):
+            if frames >= 1:
+                return True
+            frames += 1
+        h = pi_norm(k['pi'])
+        if h is not None:
+            frames += 1
+            if not any(st[0] == 'super' for st in h['body']):
+                break
+    return False
 
 
 def has_fwd(a):
@@ -889,7 +909,8 @@ def rejected_annotation(case, v):
 
 def ctx_matcher(finding, payload):
     """C10-ctx: a forward reference to a class local to the defining function resolves only in the caller's frame;
-    copy_with (frame of dataclasses.replace) and stacked new_post_init wrappers validate without it.  Only a rejection
+    copy_with (frame of dataclasses.replace) and new_post_init wrappers that are not called by __init__ directly (stacked ones,
+    or reached through a user hook's super() call) validate without it.  Only a rejection
     (PedanticTypeCheckException where the specification demands an instance) raised by the check of a field whose
     annotation contains such a forward reference."""
     if finding.get('matcher', {}).get('id') != 'local_forward_ref_context':
@@ -901,7 +922,7 @@ def ctx_matcher(finding, payload):
     a = rejected_annotation(case, v)
     if cls is None or a is None or not has_fwd(a):
         return False
-    return v.get('path') == 'copy' or ts_levels(case, cls) >= 2
+    return v.get('path') == 'copy' or wrapper_below_other_frames(case, cls)
 
 
 def override_matcher(finding, payload):
@@ -922,9 +943,15 @@ def novalue_matcher(finding, payload):
         return False
     case, v = payload['case'], payload.get('violation', {})
     cls = v.get('cls')
-    if cls is None or v.get('outcome') != 12 or 97 not in (v.get('verdicts') or []):
+    if cls is None or v.get('outcome') != 12:
         return False
-    assigned = spec_hook_run(case, cls)['sets']          # by the hooks that run for this class (Python's MRO / super() rules)
+    hk = spec_hook_run(case, cls)                        # the hooks that run for this class (Python's MRO / super() rules)
+    if 97 in (v.get('verdicts') or []):
+        assigned = hk['sets']                            # never assigned
+    elif hk['mid']:
+        assigned = hk.get('sets_at_check', hk['sets'])   # assigned only after a type-safe base's __post_init__ had been called
+    else:
+        return False
     unset = [f for f in merged_fields(case, cls) if not f['init'] and f['default'] is None and f['name'] not in assigned]
     return bool(unset) and (v.get('path') in ('ctor', 'copy', 'deep') or v.get('op', [None])[0] == 'validate')
 
